@@ -235,6 +235,9 @@ def wcs_roundtrips(ctx, rnd):
 
 def run(ctx):
     rnd = random.Random(ctx.seed * 41 + 20)
+    # the algebra of rotations by rational directions (isometry, composition, inverse) is proved for all integers
+    from . import c19
+    c19.proofs(ctx, modules=('RotationLaws',))
     res = tlc.run('MC_PixCoord', cfg_text=CFG, dump=True, coverage=True, tag='c20')
     ctx.tlc(res, 'MC_PixCoord all shape pairs x index expressions x rotations')
     if res.violated:
